@@ -299,6 +299,32 @@ fn c27rec() {
     println!("C27rec recovered file reopened: current memory = {:?}", m3.get_current_memory("user","location").map(|c| c.value.clone()));
 }
 
+fn c27auto() {
+    // a put whose WAL append trips the auto-checkpoint: the commit runs inside put, *before* the cards of that
+    // document are extracted; nothing marks the handle dirty afterwards. Try every history length k.
+    for k in 1..=45usize {
+        let dir = tempfile::tempdir().unwrap();
+        let p = dir.path().join("a.mv2");
+        let mut m = Memvid::create(&p).unwrap();
+        let mut x: u64 = 0x9e3779b97f4a7c15;
+        for n in 0..k {
+            let filler: String = (0..1500).map(|_| { x ^= x << 13; x ^= x >> 7; x ^= x << 17; char::from(b'a' + (x % 26) as u8) }).collect();
+            let text = format!("I work at Company{}. I live in City{}. {}", n, n, filler);
+            m.put_bytes(text.as_bytes()).unwrap();
+        }
+        let before: Vec<String> = m.get_entity_memories("user").iter().map(|c| c.value.clone()).collect();
+        drop(m);
+        let m2 = Memvid::open_read_only(&p).unwrap();
+        let after: Vec<String> = m2.get_entity_memories("user").iter().map(|c| c.value.clone()).collect();
+        if before.len() != after.len() {
+            let lost: Vec<_> = before.iter().filter(|v| !after.contains(v)).collect();
+            println!("C27auto k={} puts then drop: {} card values in memory, {} after reopen; lost {:?}", k, before.len(), after.len(), lost);
+            return;
+        }
+    }
+    println!("C27auto no history length up to 45 lost a card");
+}
+
 fn c32() {
     let dir = tempfile::tempdir().unwrap();
     let p = dir.path().join("a.mv2");
@@ -516,5 +542,5 @@ fn c08() {
 
 fn main() {
     let which = std::env::args().nth(1).unwrap_or_default();
-    match which.as_str() { "c05"=>c05(), "c26"=>c26(), "c20"=>c20(), "c20blob"=>c20blob(), "c07"=>c07(), "c39"=>c39(), "c19"=>c19(), "c02growth"=>c02growth(), "c04"=>c04(), "c27rec"=>c27rec(), "c23mem"=>c23mem(), "c20wal"=>c20wal(), "c26replay"=>c26replay(), "c18replay"=>c18replay(), "c02replay"=>c02replay(), "c32"=>c32(), "c11"=>c11(), "c17"=>c17(), "c08"=>c08(), "c29"=>c29(), "c14"=>c14(), "c09"=>c09(), "c18"=>c18(), "c23"=>c23(), "c16"=>c16(), "c40"=>c40(), "c24"=>c24(), "c15"=>c15(), "c22"=>c22(), _=>{ c05(); c26(); c20(); c11(); c17(); } }
+    match which.as_str() { "c05"=>c05(), "c26"=>c26(), "c20"=>c20(), "c20blob"=>c20blob(), "c07"=>c07(), "c39"=>c39(), "c19"=>c19(), "c02growth"=>c02growth(), "c04"=>c04(), "c27auto"=>c27auto(), "c27rec"=>c27rec(), "c23mem"=>c23mem(), "c20wal"=>c20wal(), "c26replay"=>c26replay(), "c18replay"=>c18replay(), "c02replay"=>c02replay(), "c32"=>c32(), "c11"=>c11(), "c17"=>c17(), "c08"=>c08(), "c29"=>c29(), "c14"=>c14(), "c09"=>c09(), "c18"=>c18(), "c23"=>c23(), "c16"=>c16(), "c40"=>c40(), "c24"=>c24(), "c15"=>c15(), "c22"=>c22(), _=>{ c05(); c26(); c20(); c11(); c17(); } }
 }
